@@ -48,11 +48,11 @@ var propConfigs = map[string]propConfig{
 	"C18": {Gen: true},
 	"C16": {},
 	"C02": {Gen: true, Bounded: []boundedCheck{{Name: "independent-parse", Run: "TestBoundedC02", Module: true,
-		Bound: "two struct shapes (Rec: required/optional/repeated columns of every physical type and one repeated group; Deep: groups nested three levels, the same group name under two parents, a repeated group inside a repeated group, fully required nesting), 11 Add/Write histories (Rec) and 6 batch partitions (Deep), page sizes 1,2,3,4,5,8,1000, three codecs: every file parsed by an independent checker (schema tree walked by num_children against the expected leaves with path, type, converted type and repetition; chunks one to one with the leaves in order; offsets contiguous from byte 4 to the footer; every page decompressed, level sections decoded with an own RLE/bit-packing decoder, value sections measured by type; header sizes, value counts, chunk totals, row counts, records per page <= page size, pages starting at record boundaries; footer length word and both magics)"}}},
+		Bound: "struct shapes (six small chain shapes under replay/shapes with the expected columns derived from the Go type; Rec: required/optional/repeated columns of every physical type and one repeated group; Deep: groups nested three levels, the same group name under two parents, a repeated group inside a repeated group, fully required nesting), 11 Add/Write histories (Rec) and 6 batch partitions (Deep), page sizes 1,2,3,4,5,8,1000, three codecs: every file parsed by an independent checker (schema tree walked by num_children against the expected leaves with path, type, converted type and repetition; chunks one to one with the leaves in order; offsets contiguous from byte 4 to the footer; every page decompressed, level sections decoded with an own RLE/bit-packing decoder, value sections measured by type; header sizes, value counts, chunk totals, row counts, records per page <= page size, pages starting at record boundaries; footer length word and both magics)"}}},
 	"C03": {Gen: true, Bounded: []boundedCheck{{Name: "independent-striping", Run: "TestBoundedC03", Module: true,
-		Bound: "two struct shapes (Rec, Deep: see C02), 24 seeded random record sets each (1..60 records; every pointer nil one time in three, lists of length 0..3 and occasionally 9..17 at every nesting level, extreme values): the repetition level, definition level and PLAIN value of every entry of every column, decoded from the written file by the independent parser, compared with an independent implementation of Dremel striping written from the paper over Go reflection; thorough tier: 480 record sets per shape"}}},
+		Bound: "struct shapes Rec, Deep (24 seeded random record sets each) and six small chain shapes (replay/shapes, 40 sets each) (1..60 records; every pointer nil one time in three, lists of length 0..3 and occasionally 9..17 at every nesting level, extreme values): the repetition level, definition level and PLAIN value of every entry of every column, decoded from the written file by the independent parser, compared with an independent implementation of Dremel striping written from the paper over Go reflection; thorough tier: 480 record sets per shape"}}},
 	"C01": {Gen: true, Bounded: []boundedCheck{{Name: "round-trip", Run: "TestBoundedC01", Module: true,
-		Bound: "three struct shapes (Rec, Deep, and OPP = the shape of known finding D10), 39 resp. 30 resp. 40 seeded random record sets (0..120 records, three sets of 1300 records in pages of 600..2000 records so that level streams hold bit-packed runs beyond 504 values; nil/non-nil optionals and list lengths 0..3/9..17 at every level; min/max integers, +-0, +-Inf, NaN payloads, empty/long/non-UTF8 strings), partitions {one batch, two batches, one record per batch, 1/n3/rest}, page sizes 1,2,3,7,1000, three codecs: records read back and compared entry by entry (floats bit for bit, nil and empty lists alike), Rows(), number of true Next() calls, Error()==nil; every record's slices and strings mutated by the caller right after Add; all records compared only after the last one was scanned; thorough tier: 400 record sets per shape"}}},
+		Bound: "struct shapes Rec, Deep, three regression shapes of repaired finding D11 and four shapes of the known findings D10/D12 (replay/shapes, replay/opp; 40 record sets each), 39 resp. 30 resp. 40 seeded random record sets (0..120 records, three sets of 1300 records in pages of 600..2000 records so that level streams hold bit-packed runs beyond 504 values; nil/non-nil optionals and list lengths 0..3/9..17 at every level; min/max integers, +-0, +-Inf, NaN payloads, empty/long/non-UTF8 strings), partitions {one batch, two batches, one record per batch, 1/n3/rest}, page sizes 1,2,3,7,1000, three codecs: records read back and compared entry by entry (floats bit for bit, nil and empty lists alike), Rows(), number of true Next() calls, Error()==nil; every record's slices and strings mutated by the caller right after Add; all records compared only after the last one was scanned; thorough tier: 400 record sets per shape"}}},
 	"C04": {Bounded: []boundedCheck{{Name: "foreign-encodings", Run: "TestBoundedC04", Module: true,
 		Bound: "60 files (1..700 records of the Rec shape, 1-2 row groups, written with each codec and page sizes 1/3/8/1000) re-encoded by an independent rewriter into another legal encoding of the same content (seeded random: RLE runs of any length >= 1, bit-packed runs of any group count incl. > 63 groups with multi-byte headers, padding bits of the last group set to 1, pages split per column at arbitrary record boundaries, a codec per column, statistics/created_by present or absent); each rewritten file is first accepted by the independent checker and decoded back to the same columns, then read with the generated reader and compared record by record; thorough tier: 600 files"},
 		{Name: "level-decoder-foreign-encodings", PkgRel: "internal/rle", File: "replay/rle_bounded_test.go.txt", Run: "TestBoundedC07",
@@ -397,7 +397,10 @@ func runCheck(o checkOpts) *CheckResult {
 		var err error
 		if bc.Module {
 			d := e.runDynTest(bc.Run, bc.Race, o)
-			out = d.Output
+			out = d.Full
+			if out == "" {
+				out = d.Output
+			}
 			if d.Confirmed || !strings.Contains(out, "ok  \treplay") {
 				err = fmt.Errorf("failed")
 			}
@@ -436,7 +439,13 @@ func runCheck(o checkOpts) *CheckResult {
 				}
 			}
 			if len(knownHit) > 0 {
-				for ki, n := range knownHit {
+				var kis []int
+				for ki := range knownHit {
+					kis = append(kis, ki)
+				}
+				sort.Ints(kis)
+				for _, ki := range kis {
+					n := knownHit[ki]
 					line := fmt.Sprintf("KNOWN-FINDING: property=%s bounded:%s %s (%d failing inputs in this run) — %s", o.prop, bc.Name, known[ki].Match, n, known[ki].What)
 					fmt.Println(line)
 					res.Known = append(res.Known, line)
